@@ -66,7 +66,10 @@ let run line =
   let blen b = try Hashtbl.find lens b with Not_found -> N0 in
   let parse b = try Hashtbl.find trees b with Not_found -> None in
   let st = { st_meta_ok = meta; st_index_ok = index_ok; st_snap_names_ok = snap_ok; st_packs = packs; st_index = index; st_roots = roots } in
-  let fuel = nat_of_int 64 in
+  (* an acyclic tree graph is no deeper than the number of tree blobs the index lists *)
+  let ntrees = List.fold_left (fun a f -> List.fold_left (fun a p ->
+    a + List.length (List.filter (fun b -> b.ib_type = BTree) p.ip_blobs)) a f.if_packs) 0 index in
+  let fuel = nat_of_int (ntrees + 2) in
   let chk = match check hash blen parse st fuel with
     | None -> "fuel"
     | Some [] -> "clean"
